@@ -484,6 +484,11 @@ func sysuStream(g *hx.Gen, id int) hx.Case {
 		if g.Chance(25) {
 			e.Resp.ConnectErrors = 1 + g.Intn(4)
 		}
+		if h == "c0.test" && g.Chance(4) {
+			// a copy destination that sends its headers and then never finishes its body
+			e.Resp.StallBody = true
+			e.Resp.ConnectErrors = 0
+		}
 		if h == "d0.test" && g.Chance(8) && len(e.Resp.Body) > 2 && len(e.Resp.Body) <= 256 {
 			e.Resp.ReadErrAt = len(e.Resp.Body) / 2
 		}
